@@ -2,8 +2,8 @@
    values.  Only statements, each closed by a lemma of proofs/RefsValue.v,
    followed by Print Assumptions. *)
 From Coq Require Import List ZArith NArith Bool.
-From XD Require Import model.RefSyntax model.RefTables model.Refs model.RefsOk model.RefsZ gen.GenRefs
-  proofs.RefsBase proofs.RefsValue proofs.RefsZLaws.
+From XD Require Import model.RefSyntax model.RefTables model.Refs model.RefsOk model.RefsZ model.RefsMgr gen.GenRefs
+  proofs.RefsBase proofs.RefsValue proofs.RefsZLaws proofs.RefsMgrProofs.
 Import ListNotations.
 
 (* TABLE OBLIGATION, re-checked against the tables regenerated from the current
@@ -123,3 +123,80 @@ Example C04_inplace_nonvacuous :
              assigned zv zerr z_of_lit z_pyop z_pyun z_pybuiltin z_pycall z_getitem z_getattr ZNan z_is_zde EBroken gen_tables r en = Ok ZNan).
 Proof. cbv zeta. split; eexists; (split; [vm_compute; reflexivity|]); vm_compute; reflexivity. Qed.
 Print Assumptions C04_inplace_nonvacuous.
+
+(* ---- in-place operators inside a manager ----------------------------------------------
+   [expr_of m r] models r._expr for a manager whose definitions are m (pairs
+   (target, expression) in registration order); [inplace_at] models  r op= other.
+   _expr is the expression registered under EXACTLY that reference: *)
+Theorem C04_expr_own_definition :
+  forall (m : tasklist) (r : term),
+    (forall e, expr_of m r = Some e -> In (r, e) m) /\
+    ((forall e, ~ In (r, e) m) -> expr_of m r = None) /\
+    (forall e, In (r, e) m -> exists e', expr_of m r = Some e').
+Proof. intros m r. split; [|split]; [apply expr_of_own|apply expr_of_none|apply expr_of_defined]. Qed.
+Print Assumptions C04_expr_own_definition.
+
+(* Definitions registered under other references -- members of the location,
+   its owners, siblings, any relative -- never enter the result of an in-place
+   operator on the location, wherever they stand in the manager: *)
+Theorem C04_inplace_own_definition_only :
+  forall (V E : Type) (of_lit : lit -> V) (pyop : binop -> V -> V -> res V E) (T : tables)
+         (op : binop) (m relatives : tasklist) (target : term) (oldv : V) (oldl : option lit) (other : term),
+    (forall p, In p relatives -> fst p <> target) ->
+    expr_of (relatives ++ m) target = expr_of m target /\
+    expr_of (m ++ relatives) target = expr_of m target /\
+    inplace_at V E of_lit pyop T op (relatives ++ m) target oldv oldl other =
+    inplace_at V E of_lit pyop T op m target oldv oldl other /\
+    inplace_at V E of_lit pyop T op (m ++ relatives) target oldv oldl other =
+    inplace_at V E of_lit pyop T op m target oldv oldl other.
+Proof.
+  intros V E of_lit pyop T op m relatives target oldv oldl other H.
+  destruct (expr_of_relatives m relatives target H) as [H1 H2].
+  destruct (inplace_at_relatives V E of_lit pyop T op m relatives target oldv oldl other H) as [H3 H4].
+  auto.
+Qed.
+Print Assumptions C04_inplace_own_definition_only.
+
+(* and the result is: own expression (op) operand when the location has a
+   definition (deferred, NaN rule), Python's operator on its current VALUE --
+   a scalar, a list, an array, a string -- and the plain operand otherwise *)
+Theorem C04_inplace_at :
+  forall (V E : Type) (of_lit : lit -> V) (pyop : binop -> V -> V -> res V E)
+         (pyun : unop -> V -> res V E) (pybuiltin : bfun -> list V -> res V E)
+         (pycall : V -> list V -> list (pystr * V) -> res V E) (getitem getattr : V -> V -> res V E)
+         (nan : V) (is_zde : E -> bool) (broken : E) (T : tables),
+    tables_ok T = true ->
+    forall (op : binop) (m : tasklist) (target : term) (oldv : V) (oldl : option lit),
+      In op inplace_ops ->
+      (forall ex other en, expr_of m target = Some ex -> is_ref ex = true ->
+         exists r, inplace_at V E of_lit pyop T op m target oldv oldl other = Some r /\
+                   assigned V E of_lit pyop pyun pybuiltin pycall getitem getattr nan is_zde broken T r en =
+                   rbind (value V E of_lit pyop pyun pybuiltin pycall getitem getattr nan is_zde broken T ex en) (fun ve =>
+                   rbind (value V E of_lit pyop pyun pybuiltin pycall getitem getattr nan is_zde broken T other en) (fun vo =>
+                   nan_guard V E nan is_zde op (pyop op ve vo)))) /\
+      (forall k, expr_of m target = None ->
+         inplace_at V E of_lit pyop T op m target oldv oldl (TConst k) = Some (IVal (pyop op oldv (of_lit k)))).
+Proof.
+  intros V E of_lit pyop pyun pybuiltin pycall getitem getattr nan is_zde broken T HT op m target oldv oldl Hin. split.
+  - intros ex other en He Hr.
+    exact (inplace_at_defined V E of_lit pyop pyun pybuiltin pycall getitem getattr nan is_zde broken T HT
+             op m target ex oldv oldl other en Hin He Hr).
+  - intros k He. exact (inplace_at_plain V E of_lit pyop T HT op m target oldv oldl k Hin He).
+Qed.
+Print Assumptions C04_inplace_at.
+
+(* non-vacuity: c['arr'][0] = c['k'] * 2 is the only definition; c['arr'] has none
+   of its own, so  c['arr'] += 1  is  <old value> + 1  (a plain value, not an
+   expression) while  c['arr'][0] += 1  is the expression ((c['k'] * 2) + 1) *)
+Example C04_inplace_at_nonvacuous :
+  let c := TTop [99%N] false in
+  let arr := TItem c (TConst (LStr [97%N; 114%N; 114%N])) in
+  let arr0 := TItem arr (TConst (LInt 0)) in
+  let k2 := TBin 12%N (TItem c (TConst (LStr [107%N]))) (TConst (LInt 2)) in
+  let m : tasklist := [(arr0, k2)] in
+  expr_of m arr = None /\ expr_of m arr0 = Some k2 /\
+  inplace_at zv zerr z_of_lit z_pyop gen_tables OAdd m arr (ZInt 10) (Some (LInt 10)) (TConst (LInt 1)) = Some (IVal (Ok (ZInt 11))) /\
+  inplace_at zv zerr z_of_lit z_pyop gen_tables OAdd m arr0 (ZInt 10) (Some (LInt 10)) (TConst (LInt 1))
+  = Some (IExpr (TBin 10%N k2 (TConst (LInt 1)))).
+Proof. cbv zeta. repeat split; vm_compute; reflexivity. Qed.
+Print Assumptions C04_inplace_at_nonvacuous.
